@@ -31,6 +31,10 @@ def run(P, R, L):
     R.clause("PAIR-2", "followers popped by the leader receive the group's result before they are notified, and the leader's "
              "own return value derives from the same result")
     K.pair2_group_result(P, R, L)
+    R.clause("GRD-5", "table files referenced by any version that is still linked (a suspended reader's captured version) are never queued for deletion")
+    from .c11 import grd5, pair1
+    grd5(P, R, L)
+    pair1(P, R, L)
     R.not_decided += ["linearizability itself (real-time order of responses)", "fairness of unlocked_fair",
                       "memory-model arguments for the unsafe blocks (UnsafeCell LogWriter, ArcSwap)"]
     R.assumptions += ["parking_lot::MutexGuard::unlocked_fair releases the mutex for exactly the duration of the closure",
